@@ -10,17 +10,17 @@ CHECKS = {
  "C04": ("proof: FileView position formula per (take, leave) geometry, byte offset of container sectors, view construction of .ssd/.sdd/.dsd/.ddd/.mmb, one drive per view, dump-sector argument check and address", "geometry *selection* plumbing (filter_formats, min_element) outside the verified set"),
  "C05": ("proof for the bit level (bit order, stride/offset addressing, copy_hfe v1, MFM byte), track-list completeness, track length rounding and both flux adapters' address lookup; the end-to-end 'same sectors as the .ssd' clause is undecided", "copy_hfe for HFEv3, read_all_sectors, compute_geometry outside (DESIGN.md C05)"),
  "C06": ("proof: CRC-16/CCITT step and fold, scan_for (first match, window contents), MFM and FM byte / copy functions, check_crc_with_a1s / get_crc, and both decoder state machines (every yielded sector: ID and data fields passed the CRC, data field belongs to that ID field, data exactly between mark and CRC); image-level lookup by address", "read_all_sectors and std::sort outside; CRC blocks <= 24 bytes quick / 261 bytes thorough; termination of the decoder loops not proved"),
- "C07": ("proof of function-level safety for the extracted parsers on arbitrary bytes, bounded allocation, termination of the HxC/MMB/track loops, exceptions by value, no exception escaping SurfaceSelector::parse (reduced scope, see DESIGN.md C07)", "whole-program clause (exit status, signals) is outside any contract"),
+ "C07": ("proof of function-level safety for the extracted parsers on arbitrary bytes, bounded allocation, termination of the HxC/MMB/track loops, exceptions by value, no exception escaping SurfaceSelector::parse, FileView::read_block on unformatted views (reduced scope, see DESIGN.md C07)", "whole-program clause (exit status, signals) is outside any contract"),
  "C08": ("proof: safety obligations of every basic/ function for arbitrary bytes, exit status in {0,1}, non-zero => diagnostic", "libc modelled (stdio, getopt, strtol, strcmp); <= 64 argv words"),
  "C09": ("proof: framing automaton, no-invention precondition on decode_line, token rejection", "stated allowances (empty file, trailing bytes after LE marker, 0D FF xx)"),
  "C10": ("proof: same geometry hints with and without .gz; gzip format only; under the zlib.h contract of inflate no byte lost or duplicated, normal exit only at Z_STREAM_END, every other outcome an exception by value; DecompressedFile::read returns exactly the bytes that exist", "container choice in make_image_file outside the verified set; zlib itself assumed"),
- "C11": ("proof for bbcbasic_to_text under the strict write-failure model; dfs: main tail (flush + test of std::cout), type body, write_span of extract-unused, the body-file and .inf write paths of extract-files", "other dfs commands rely on the main-tail check; -D dump contract assumed"),
- "C12": ("proof of path confinement for extract-files and extract-unused", "read-only-ness of images is a fact about library calls, outside contracts"),
+ "C11": ("proof for bbcbasic_to_text under the strict write-failure model; dfs: main tail (flush + test of std::cout) and the --help path, type body, write_span of extract-unused, the body-file and .inf write paths of extract-files", "other dfs commands rely on the main-tail check; -D dump contract assumed"),
+ "C12": ("proof of path confinement for extract-files and extract-unused; input files (OsFile, gz input) are opened read-only, with an inventory pre-check that these are all the places dfs opens a file", "that no write call is reachable on an input stream is a fact about library calls, outside contracts; the inventory is a static scan, not a proof"),
  "C13": ("proof for the HDFS/Watford probes, the probe order of probe_format / smells_like_acorn_dfs with the variant's sector count, and the geometry decisions of probe_geometry (large enough, other side, preference)", "Opus volume-table probe and catalogue validity are unconstrained models; candidate-list plumbing outside"),
  "C14": ("proof for free (used/free arithmetic), extract-unused (span loop + write_span), Catalog::map_sectors, and the gap bookkeeping of space (initial gap, per-entry gap, maybe_gap)", "the ordering loops of space and SectorMap (std::map) outside the verified set"),
  "C15": ("proof for the wildcard -> ERE translation under stated POSIX axioms, the dir/name split of parse_filename, case-insensitive comparison and CatalogEntry::has_name", "regex engine assumed; find_if plumbing and the drive prefix outside"),
  "C16": ("proof for drive-number arithmetic, check_sequence_fits, StorageConfiguration::connect_drives (both policies, unbounded occupancy) and ViewFile::connect_drives", "mount and the MMB history clause outside"),
- "C17": ("proof for Volume::Access::read_block, the sector walk, FileView take-windows and Opus volume extents (disjoint, ordered, inside the disc)", "the Opus volume-table loop and std::sort outside"),
+ "C17": ("proof for Volume::Access::read_block, the sector walk, FileView take-windows, Opus volume extents (disjoint, ordered, inside the disc) and the access window each Volume is constructed with", "the Opus volume-table loop and std::sort outside"),
  "C19": ("proof: every basic/ harness and every extracted dfs function containing an assert, in both assert configurations against the same contracts", "build_mapping with its own asserts on (memory); functions outside the verified set"),
 }
 NA = {
